@@ -1,219 +1,387 @@
-//! Closed, enumerated root-cause classes for signatures. A failing (minimised) case is named by the
-//! first class, in a FIXED PRIORITY ORDER, whose predicate over the harness' own type/value model
-//! holds. A case that matches no class gets `cause=unclassified|shape=<minimised shape>` - the only
-//! open-ended signature; it must not occur on the unchanged tree.
-use crate::refenc::Ver;
-use std::collections::BTreeSet;
+//! Closed, enumerated root-cause classes for signatures (C09, C10, C11, C39).
+//!
+//! A failing case gets the name of a class only when the class' predicate is VERIFIED ON THAT CASE -
+//! by an experiment that isolates the cause (the same value in an encoding that differs only in the
+//! suspected construct decodes correctly) or by replaying on the very bytes what the defective code
+//! does. Everything else gets `cause=unclassified|...`, which no known finding can match, so a new kind
+//! of failure - also one that comes back after having been repaired - is reported as a violation.
+//!
+//! Classes (file:line as of /repo b28f9ea; all open, see KNOWN_FINDINGS.txt):
+//!
+//! * `xcdr2_lc5_on_primitive_sequence` (S1; C09 XCDR2, C10 encode XCDR2, possible in C39 XCDR2)
+//!   dds/src/xtypes/serializer.rs:568-577 (EMheader1::write_header): LC 5 is chosen for every member of
+//!   kind SEQUENCE. For sequence<2/4/8/16-byte primitive> the NEXTINT that LC 5 shares with the value is
+//!   the element COUNT, so the member size 4+NEXTINT is wrong; a reader that skips the member
+//!   (deserializer.rs:482,500) lands inside it. Verified: dust-dds' bytes are byte-identical to the
+//!   reference encoder driven to dust-dds' length codes (`LcPolicy::DustLike`) and differ from the same
+//!   encoding with LC 4 in exactly those places (`LcPolicy::DustLikeRepaired`, a legitimate encoding); for a
+//!   decode failure additionally: dust-dds decodes that repaired encoding of the same value correctly.
+//!   Masks nothing.
+//!
+//! * `xcdr2_lc6_lc7_nextint_not_rewound_by_reader` (S2; C10 decode_lc_optimized XCDR2)
+//!   dds/src/xtypes/deserializer.rs:495-497 (EncodingVersion2::seek_to_pid): `if lc == 5` - the NEXTINT of
+//!   LC 6 / LC 7 is not given back to the member value (rule (22): IF LC >= 5), the sequence length is
+//!   read from the first element. Verified: the reference bytes use LC 6 or 7, and the same value with
+//!   LC 4 in exactly those places (`LcPolicy::OptimizedLc5Only`) decodes correctly. Masks nothing.
+//!
+//! * `xcdr2_mutable_member_lookup_not_bounded_by_dheader` (S3; C09 XCDR2, C10 decode XCDR2, C39 XCDR2)
+//!   dds/src/xtypes/deserializer.rs:468-503 (seek_to_pid walks EMHEADERs until the reader's buffer ends),
+//!   :568-579 / :589-606 (deserialize_mstruct_type / deserialize_mmember never cut the buffer at
+//!   object start + DHEADER, unlike deserialize_appendable_type :666-677): a member that is ABSENT from a
+//!   mutable structure which is not the last thing in the buffer is searched in the bytes after the
+//!   object; any 4-aligned word there whose low 28 bits equal the member id is taken for its EMHEADER.
+//!   Verified by replaying that walk on the bytes dust-dds read (objects located by the independent
+//!   decoder): some absent member is found beyond the end of its object, and - when the deserializer
+//!   returned a value - the first wrong member is that member (same type: exactly, as `member_invented`, or
+//!   a `member_lost` ancestor of it when the bogus read hits the end of an enclosing appendable object;
+//!   evolved reader type: on the same member path). Unavoidably masked: a second defect in a case that
+//!   contains such a false match, if the deserializer returns an error (an error has no location) or if
+//!   it shows at the same member first.
+//!
+//! * `reader_has_more_trailing_members_reads_padding_or_nothing` (S4; C39 XCDR1)
+//!   dds/src/xtypes/deserializer.rs:692-704 (deserialize_top_level_type passes buffer[4..] including the
+//!   padding announced in the encapsulation options), :1254-1272 (an appendable reader type stops at
+//!   NotEnoughData only): trailing members the writer did not send are read from the 1-3 padding bytes.
+//!   Verified: the options announce padding, and the same bytes with the padding removed (options 0)
+//!   decode correctly with the reader type. Masks nothing.
+//!
+//! * `xcdr1_trailing_mutable_union_not_sent_fails_with_invalid_id` (S7; C39 XCDR1; was hidden under S4's label)
+//!   dds/src/xtypes/deserializer.rs:362-394 (EncodingVersion1::deserialize_munion_type): at the end of the
+//!   data the failed lookup of the discriminator is swallowed (:337-345) and :372
+//!   get_discriminator_id_as_i32 -> get_value(0) fails with InvalidId(0); deserialize_fstruct_type
+//!   :1262-1266 lets an appendable reader type stop at NotEnoughData only, so a trailing member of (or
+//!   beginning with) a MUTABLE union type that the writer's type does not have makes the whole sample
+//!   undecodable. Verified: the error is InvalidId, and the same bytes (padding removed) decode correctly
+//!   with the reader type in which only the extensibility of the unions inside the reader-only members
+//!   is changed to FINAL. Masks nothing.
+//!
+//! * `assignability_ignores_nested_types` (S6; C39 XCDR1 + XCDR2)
+//!   dds/src/xtypes/type_object.rs:2626-2639 (is_assignable_from_w_type_consistency): an EK_COMPLETE member
+//!   type is assignable from any other EK_COMPLETE type (only the hash is available there).
+//!   Verified: the pair is not assignable by construction, the API says it is, and the two types differ
+//!   ONLY inside structure-typed members (same extensibility, same member ids / names / flags, every
+//!   other member type identical); the writer type's own round trip of the value works (C39 precondition),
+//!   so decoding fails because of that difference. Masks nothing.
+//!
+//! * `key_marks_in_nonkey_nested_struct_flattened_by_member_id` (S5; C11)
+//!   dds/src/dcps/xtypes_glue/key_and_instance_handle.rs:26-35 (type) and :85-99 (data): @key members
+//!   found inside NON-key, non-optional structure members are flattened into one key holder that is
+//!   indexed by member id; ids of different structures collide (value overwritten: different keys, same
+//!   handle; or a value of another type: InvalidType). Verified: replaying that flattening on the
+//!   minimised type yields the same member id twice (for `different_key_same_handle`: the id of the
+//!   top-level key member that was changed is one of them). Unavoidably masked: another defect with the
+//!   same verdict in a type that has such a collision on that id.
+use crate::refenc::{self, LcPolicy, MemberOrder, MutObj, Opts, Rep, Ver};
 use xcdrlib::model::*;
 
-#[derive(Default, Debug, Clone)]
-pub struct Features {
-    pub val: BTreeSet<&'static str>,
-    pub f128: bool,
-    pub p8: bool,
-    /// optional member of a final / appendable structure
-    pub opt_in_fa: bool,
-    pub top_mutable: bool,
-    pub nested_mutable: bool,
-    pub appendable_union: bool,
-    /// collection whose element is an appendable / mutable union
-    pub coll_union_nonfinal: bool,
-    pub exotic_disc: bool,
-    pub bigid: bool,
-    /// mutable struct member / mutable union case that is a sequence of a 2/4/8/16-byte primitive
-    pub mutable_seq_prim_wide: bool,
-    /// same with element size 4 or 8 (LC 6 / LC 7 applicable)
-    pub mutable_seq_prim_4or8: bool,
-    /// mutable aggregate with a string / byte-sequence member (LC 5 applicable without DHEADER)
-    pub mutable_str_or_bytes: bool,
-    pub any_mutable: bool,
-    pub union_any: bool,
-    pub wstr: bool,
+pub const S1: &str = "xcdr2_lc5_on_primitive_sequence";
+pub const S2: &str = "xcdr2_lc6_lc7_nextint_not_rewound_by_reader";
+pub const S3: &str = "xcdr2_mutable_member_lookup_not_bounded_by_dheader";
+pub const S4: &str = "reader_has_more_trailing_members_reads_padding_or_nothing";
+pub const S5: &str = "key_marks_in_nonkey_nested_struct_flattened_by_member_id";
+pub const S6: &str = "assignability_ignores_nested_types";
+pub const S7: &str = "xcdr1_trailing_mutable_union_not_sent_fails_with_invalid_id";
+
+/// Result of running dust-dds' deserializer (with the reader type of the case) on some bytes, judged
+/// with the oracle of the check that asks.
+pub enum Probe {
+    Ok,
+    /// wrong value; path of the first difference as the check prints it (`a.[].b:kind`)
+    Wrong(String),
+    /// the deserializer returned an error
+    Error,
+    /// panic, harness problem: never explained by a known class
+    Other,
 }
 
-fn walk(t: &Ty, top: bool, f: &mut Features) {
-    match t {
-        Ty::Prim(p) => {
-            if *p == Prim::F128 {
-                f.f128 = true;
-            }
-            if p.size() >= 8 {
-                f.p8 = true;
-            }
-        }
-        Ty::WStr { .. } => f.wstr = true,
-        Ty::Str { .. } | Ty::Enum(_) => {}
-        Ty::Struct(s) => {
-            if s.ext == Ext::Mutable {
-                f.any_mutable = true;
-                if top {
-                    f.top_mutable = true;
-                } else {
-                    f.nested_mutable = true;
-                }
-            }
-            for m in &s.members {
-                if m.optional && s.ext != Ext::Mutable {
-                    f.opt_in_fa = true;
-                }
-                if s.ext == Ext::Mutable {
-                    if m.id >= 0x3F00 {
-                        f.bigid = true;
-                    }
-                    mutable_member(&m.ty, f);
-                }
-                walk(&m.ty, false, f);
-            }
-        }
-        Ty::Union(u) => {
-            f.union_any = true;
-            if u.ext == Ext::Appendable {
-                f.appendable_union = true;
-            }
-            if u.ext == Ext::Mutable {
-                f.any_mutable = true;
-                if top {
-                    f.top_mutable = true;
-                } else {
-                    f.nested_mutable = true;
-                }
-            }
-            if !matches!(
-                &u.disc,
-                Ty::Prim(Prim::U8 | Prim::I8 | Prim::Byte | Prim::I16 | Prim::U16 | Prim::I32 | Prim::U32)
-            ) {
-                f.exotic_disc = true;
-            }
-            walk(&u.disc, false, f);
-            for c in &u.cases {
-                if let Some(ct) = &c.ty {
-                    if u.ext == Ext::Mutable {
-                        mutable_member(ct, f);
-                    }
-                    walk(ct, false, f);
-                }
-            }
-        }
-        Ty::Seq { elem, .. } | Ty::Arr { elem, .. } => {
-            if let Ty::Union(u) = &**elem {
-                if u.ext != Ext::Final {
-                    f.coll_union_nonfinal = true;
-                }
-            }
-            walk(elem, false, f);
-        }
-    }
-}
-
-fn mutable_member(t: &Ty, f: &mut Features) {
-    match t {
-        Ty::Seq { elem, .. } => {
-            if let Ty::Prim(p) = &**elem {
-                if p.size() > 1 {
-                    f.mutable_seq_prim_wide = true;
-                }
-                if p.size() == 4 || p.size() == 8 {
-                    f.mutable_seq_prim_4or8 = true;
-                }
-                if p.size() == 1 {
-                    f.mutable_str_or_bytes = true;
-                }
-            }
-        }
-        Ty::Str { .. } => f.mutable_str_or_bytes = true,
-        _ => {}
-    }
-}
-
-pub fn features(t: &Ty, v: &Val) -> Features {
-    let mut f = Features::default();
-    walk(t, true, &mut f);
-    value_tags(t, v, &mut f.val);
-    f
-}
-
-/// Deserializer / round-trip classes (C09 `value_not_restored`, C10 decode directions, C39 inherit).
-#[derive(Clone, Copy, PartialEq, Eq)]
-pub enum Mode {
-    /// dust-dds reads bytes written by its own serializer
-    RoundTrip,
-    /// dust-dds reads reference bytes with plain length codes
+#[derive(Clone, Copy, PartialEq, Eq, Debug)]
+pub enum BytesFrom {
+    /// dust-dds' own serializer (C09, C39)
+    DustWriter,
+    /// reference encoder, plain length codes (C10 decode_lc_plain)
     RefPlain,
-    /// dust-dds reads reference bytes that use LC 5/6/7
+    /// reference encoder, LC 5/6/7 where applicable (C10 decode_lc_optimized)
     RefOptimized,
 }
 
-pub fn decode_cause(f: &Features, ver: Ver, mode: Mode) -> Option<&'static str> {
-    let x1 = ver == Ver::X1;
-    if f.val.contains("char8>=0x80") {
-        return Some("char8_ge_0x80_written_as_utf8");
+pub struct DecodeCase<'a> {
+    /// type and value that were serialized
+    pub wt: &'a Ty,
+    pub wv: &'a Val,
+    /// type dust-dds deserialized with (= wt except in C39)
+    pub rt: &'a Ty,
+    pub rep: Rep,
+    /// the bytes dust-dds failed on
+    pub bytes: &'a [u8],
+    pub from: BytesFrom,
+    /// how it failed on them (`Probe::Wrong` / `Probe::Error`)
+    pub outcome: Probe,
+}
+
+fn x2_opts<'h>(policy: LcPolicy, order: MemberOrder, hint: Option<&'h [u8]>) -> Opts<'h> {
+    Opts {
+        origin_restore: true,
+        lc_policy: policy,
+        order,
+        hint,
     }
-    if f.val.contains("disc_selects_no_case") {
-        return Some("disc_selects_no_case_rejected");
+}
+
+/// If `dust` is a correct encoding of (t, v) except for dust-dds' LC 5 on non-empty sequences of a
+/// 2/4/8/16-byte primitive (and really contains one): the same bytes with that one thing put right.
+pub fn dust_lc5_quirk_repaired(t: &Ty, v: &Val, rep: Rep, dust: &[u8]) -> Option<Vec<u8>> {
+    if rep.ver() != Ver::X2 {
+        return None;
     }
-    if f.exotic_disc {
-        return Some("discriminator_kind_unsupported");
-    }
-    if f.bigid {
-        return Some("member_id_ge_2^14_no_pid_extended");
-    }
-    if f.val.contains("member>64KiB") && x1 {
-        return Some("member_gt_64KiB_xcdr1_16bit_length");
-    }
-    if f.f128 && x1 {
-        return Some("f128_aligned_to_16_by_reader");
-    }
-    if f.appendable_union && x1 {
-        return Some("xcdr1_appendable_union_reader_expects_dheader");
-    }
-    if f.coll_union_nonfinal {
-        return Some("union_element_in_collection_written_as_final");
-    }
-    if !x1 && f.mutable_seq_prim_wide && mode == Mode::RoundTrip {
-        return Some("xcdr2_lc5_on_primitive_sequence");
-    }
-    if !x1 && f.mutable_seq_prim_4or8 && mode == Mode::RefOptimized {
-        return Some("xcdr2_lc6_lc7_nextint_not_rewound_by_reader");
-    }
-    if x1 && f.p8 && (f.opt_in_fa || f.any_mutable) {
-        return Some("xcdr1_align_origin_after_pl_member");
-    }
-    if x1 && f.opt_in_fa {
-        return Some("xcdr1_optional_reader_position_reset");
-    }
-    if f.nested_mutable {
-        return Some("nested_mutable_reader_position_not_advanced");
+    for order in [MemberOrder::Declaration, MemberOrder::ById] {
+        let like = refenc::encode_top(t, v, rep, x2_opts(LcPolicy::DustLike, order, None)).ok()?;
+        if like.bytes != dust {
+            continue;
+        }
+        let repaired = refenc::encode_top(t, v, rep, x2_opts(LcPolicy::DustLikeRepaired, order, None)).ok()?;
+        if repaired.bytes != dust {
+            return Some(repaired.bytes);
+        }
     }
     None
 }
 
-/// Serializer classes (C10 encode direction).
-pub fn encode_cause(f: &Features, ver: Ver) -> Option<&'static str> {
-    let x1 = ver == Ver::X1;
-    if f.val.contains("member>64KiB") && x1 {
-        return Some("member_gt_64KiB_xcdr1_16bit_length");
+/// What EncodingVersion2::seek_to_pid does when deserialize_mmember looks for member `id` of the object
+/// whose first EMHEADER is at `o.start`: true if it "finds" the member at or beyond the end of the object.
+/// Offsets are absolute (the reader's buffer starts at 4, which keeps the 4-alignment).
+fn lookup_false_match(b: &[u8], le: bool, o: &MutObj, id: u32) -> bool {
+    let limit = o.limit.min(b.len());
+    let rd = |at: usize| -> Option<u32> {
+        if at + 4 > limit {
+            return None;
+        }
+        let w = [b[at], b[at + 1], b[at + 2], b[at + 3]];
+        Some(if le { u32::from_le_bytes(w) } else { u32::from_be_bytes(w) })
+    };
+    let mut pos = o.start;
+    loop {
+        pos = (pos + 3) & !3;
+        if pos > limit {
+            return false;
+        }
+        let at = pos;
+        let em = match rd(pos) {
+            Some(x) => x,
+            None => return false,
+        };
+        pos += 4;
+        let lc = (em >> 28) & 7;
+        let length: u64 = match lc {
+            0 => 1,
+            1 => 2,
+            2 => 4,
+            3 => 8,
+            _ => {
+                let n = match rd(pos) {
+                    Some(x) => x as u64,
+                    None => return false,
+                };
+                pos += 4;
+                match lc {
+                    4 | 5 => n,
+                    6 => n * 4,
+                    _ => n * 8,
+                }
+            }
+        };
+        if em & 0x0fff_ffff == id & 0x0fff_ffff {
+            return at >= o.end;
+        }
+        if length > u32::MAX as u64 || pos as u64 + length > limit as u64 {
+            return false;
+        }
+        pos += length as usize;
     }
-    if f.bigid {
-        return Some("member_id_ge_2^14_no_pid_extended");
-    }
-    if f.coll_union_nonfinal {
-        return Some("union_element_in_collection_written_as_final");
-    }
-    if !x1 && f.mutable_seq_prim_wide {
-        return Some("xcdr2_lc5_on_primitive_sequence");
-    }
-    None
 }
 
-/// Known panic sites -> class names (a new site is a new finding and stays spelled out).
+/// Member paths (object path + member name) of the absent members that dust-dds' lookup finds beyond
+/// the end of their object in `bytes`, read with type `rt`. Empty if the bytes are not well formed.
+pub fn lookup_false_matches(rt: &Ty, bytes: &[u8]) -> Vec<Vec<String>> {
+    let (d, _) = match refenc::decode_body_as_reader(rt, bytes) {
+        Ok(x) => x,
+        Err(_) => return Vec::new(),
+    };
+    if d.rep.ver() != Ver::X2 {
+        return Vec::new();
+    }
+    let mut out = Vec::new();
+    for o in &d.mut_objs {
+        for (id, name) in &o.absent {
+            if lookup_false_match(bytes, d.rep.le(), o, *id) {
+                let mut p = o.path.clone();
+                p.push(name.clone());
+                out.push(p);
+            }
+        }
+    }
+    out
+}
+
+/// (path tokens, kind) of a first-difference string such as `m3.[].m4.m5:member_invented`,
+/// `f0.x0:new_member_not_default`, `m5.value_differs`, `m1.union:other_case`
+fn split_diff(d: &str) -> (Vec<String>, String) {
+    let mut toks: Vec<String> = d.split('.').map(|s| s.to_string()).collect();
+    let last = toks.pop().unwrap_or_default();
+    let kind = match last.split_once(':') {
+        Some((name, kind)) => {
+            if name != "union" {
+                toks.push(name.to_string());
+            }
+            kind.to_string()
+        }
+        None => last,
+    };
+    (toks, kind)
+}
+
+fn is_prefix(a: &[String], b: &[String]) -> bool {
+    a.len() <= b.len() && a.iter().zip(b.iter()).all(|(x, y)| x == y)
+}
+
+/// Root cause of a deserialization failure (C09 `value_not_restored`, C10 `dec_fail`, C39 decode
+/// failures in XCDR2). `probe` runs dust-dds on other bytes for the same value.
+pub fn decode_cause(c: &DecodeCase, probe: &mut dyn FnMut(&[u8]) -> Probe) -> Option<&'static str> {
+    if c.rep.ver() != Ver::X2 {
+        // every XCDR1 deserializer defect known so far has been repaired
+        return None;
+    }
+    let mut bytes: Vec<u8> = c.bytes.to_vec();
+    let mut diff: Option<String> = match &c.outcome {
+        Probe::Wrong(d) => Some(d.clone()),
+        Probe::Error => None,
+        _ => return None,
+    };
+    let carry_on = |r: Probe, b: Vec<u8>, bytes: &mut Vec<u8>, diff: &mut Option<String>| -> bool {
+        match r {
+            Probe::Wrong(d) => {
+                *bytes = b;
+                *diff = Some(d);
+                true
+            }
+            Probe::Error => {
+                *bytes = b;
+                *diff = None;
+                true
+            }
+            _ => false,
+        }
+    };
+    match c.from {
+        BytesFrom::DustWriter => {
+            if let Some(repaired) = dust_lc5_quirk_repaired(c.wt, c.wv, c.rep, &bytes) {
+                match probe(&repaired) {
+                    Probe::Ok => return Some(S1),
+                    // also without the LC 5 defect the value is not restored: go on with those bytes
+                    r => {
+                        if !carry_on(r, repaired, &mut bytes, &mut diff) {
+                            return None;
+                        }
+                    }
+                }
+            }
+        }
+        BytesFrom::RefOptimized => {
+            let opt = refenc::encode_top(c.wt, c.wv, c.rep, x2_opts(LcPolicy::Optimized, MemberOrder::Declaration, None)).ok()?;
+            if opt.bytes == bytes && (opt.used.contains("lc6") || opt.used.contains("lc7")) {
+                let alt = refenc::encode_top(c.wt, c.wv, c.rep, x2_opts(LcPolicy::OptimizedLc5Only, MemberOrder::Declaration, None)).ok()?;
+                match probe(&alt.bytes) {
+                    Probe::Ok => return Some(S2),
+                    r => {
+                        if !carry_on(r, alt.bytes, &mut bytes, &mut diff) {
+                            return None;
+                        }
+                    }
+                }
+            }
+        }
+        BytesFrom::RefPlain => {}
+    }
+    let fms = lookup_false_matches(c.rt, &bytes);
+    if fms.is_empty() {
+        return None;
+    }
+    let same_type = std::ptr::eq(c.wt, c.rt) || c.wt == c.rt;
+    let located = match &diff {
+        // an error carries no location
+        None => true,
+        Some(d) => {
+            let (toks, kind) = split_diff(d);
+            if same_type {
+                // the absent member gets a value; or reading that "value" runs into the end of an enclosing
+                // XCDR2 appendable object (the reader's buffer is cut there, :671-673) and the NotEnoughData
+                // makes deserialize_fstruct_type (:1262-1266) stop silently at the member that contains
+                // the object, which is then lost
+                (kind == "member_invented" && fms.iter().any(|p| *p == toks))
+                    || (kind == "member_lost" && fms.iter().any(|p| toks.len() < p.len() && is_prefix(&toks, p)))
+            } else {
+                fms.iter().any(|p| is_prefix(p, &toks) || is_prefix(&toks, p))
+            }
+        }
+    };
+    if located { Some(S3) } else { None }
+}
+
+/// Root cause of a byte difference between dust-dds' serializer and the reference (C10 encode).
+pub fn encode_cause(t: &Ty, v: &Val, rep: Rep, dust: &[u8]) -> Option<&'static str> {
+    dust_lc5_quirk_repaired(t, v, rep, dust).map(|_| S1)
+}
+
+/// C39, S6: do the two types differ only inside structure-typed members?
+pub fn differ_only_in_nested_struct_members(w: &Ty, r: &Ty) -> bool {
+    let (ws, rs) = match (w, r) {
+        (Ty::Struct(a), Ty::Struct(b)) => (a, b),
+        _ => return false,
+    };
+    if ws.ext != rs.ext || ws.members.len() != rs.members.len() {
+        return false;
+    }
+    let mut nested_differs = false;
+    for (a, b) in ws.members.iter().zip(rs.members.iter()) {
+        if a.id != b.id || a.name != b.name || a.optional != b.optional || a.key != b.key || a.must_understand != b.must_understand {
+            return false;
+        }
+        if a.ty != b.ty {
+            match (&a.ty, &b.ty) {
+                (Ty::Struct(_), Ty::Struct(_)) => nested_differs = true,
+                _ => return false,
+            }
+        }
+    }
+    nested_differs
+}
+
+/// C11, S5: member ids that occur more than once in dust-dds' flattened key holder
+/// (KeyHolderType::from_dynamic_type: key members, and recursively the key members of non-key,
+/// non-optional structure members, in one list indexed by member id).
+pub fn flattened_key_id_collisions(t: &Ty) -> Vec<u32> {
+    fn fill(t: &Ty, out: &mut Vec<u32>) {
+        if let Ty::Struct(s) = t {
+            for m in &s.members {
+                if m.key {
+                    out.push(m.id);
+                } else if matches!(&m.ty, Ty::Struct(_)) && !m.optional {
+                    fill(&m.ty, out);
+                }
+            }
+        }
+    }
+    let mut ids = Vec::new();
+    fill(t, &mut ids);
+    let mut dup: Vec<u32> = ids.iter().copied().filter(|i| ids.iter().filter(|j| *j == i).count() > 1).collect();
+    dup.sort();
+    dup.dedup();
+    dup
+}
+
+/// Panic sites: none is a known finding any more (seek_to_pid NEXTINT overflow ef104cf and the PID u16
+/// overflow 97ae400 are repaired), so every site stays spelled out.
 pub fn panic_cause(sig: &str) -> String {
-    if sig.contains("seek_to_pid") && sig.contains("multiply with overflow") {
-        "seek_to_pid_nextint_multiply_overflow".into()
-    } else if sig.contains("serialize_mmember") && sig.contains("add with overflow") {
-        "member_id_ge_2^14_pid_u16_overflow".into()
-    } else {
-        format!("unclassified|site={}", sig)
-    }
+    format!("unclassified|site={}", sig)
 }
 
 pub fn ver_name(ver: Ver) -> &'static str {
